@@ -10,6 +10,9 @@ pub mod node;
 pub mod h_graph;
 pub mod h_panic;
 pub mod h_fin;
+pub mod h_api;
+#[cfg(feature = "weak-ptrs")]
+pub mod h_cyclic;
 #[cfg(feature = "weak-ptrs")]
 pub mod h_weak;
 
